@@ -592,6 +592,14 @@ class Analysis(object):
                                     out.append({'kind': 'index', 'fn': fname, 'loc': self.loc(ins), 'labels': sorted(lab),
                                                 'text': 'wire-controlled offset (%s) indexes %s without a dominating range check'
                                                 % (', '.join(sorted(lab)), ', '.join(base) or 'memory')})
+                    elif ins.op in ('udiv', 'sdiv', 'urem', 'srem') and ins.args[1][1][0] == 'r':
+                        # K10: a divisor taken from the datagram must be known to be non-zero
+                        r = ins.args[1][1][1]
+                        lab = self.taint.get((fname, r))
+                        if lab and not self._nonzero_guard(fname, info, ins, r):
+                            out.append({'kind': 'division', 'fn': fname, 'loc': self.loc(ins), 'labels': sorted(lab),
+                                        'text': 'divides by a value from the wire (%s) that no dominating test excludes from being '
+                                                'zero: one datagram stops the listener with a division fault' % ', '.join(sorted(lab))})
                     elif ins.op == 'alloca' and ins.x['count'] is not None and ins.x['count'][1][0] == 'r':
                         r = ins.x['count'][1][1]
                         lab = self.taint.get((fname, r))
@@ -632,15 +640,34 @@ class Analysis(object):
                     holders.setdefault(obj, set()).add(key[1])
         if not holders:
             return
+        # objects each function stores into, directly or through the functions it calls (the queue helpers)
+        direct = {}
+        callees = {}
         for fname, fn in mod.functions.items():
-            stored = set()
-            frees = []
+            st = set()
+            cs = set()
             for ins in fn.instrs():
                 if ins.op == 'store':
                     for (obj, off) in self.origin_of(fname, ins.args[1]):
-                        stored.add(obj)
-                elif ins.op == 'call' and callee_name(ins) == 'free' and ins.args:
-                    frees.append(ins)
+                        st.add(obj)
+                elif ins.op == 'call':
+                    cn = callee_name(ins)
+                    if cn in mod.functions:
+                        cs.add(cn)
+            direct[fname] = st
+            callees[fname] = cs
+        closure = {f: set(v) for f, v in direct.items()}
+        changed = True
+        while changed:
+            changed = False
+            for f in closure:
+                for c in callees[f]:
+                    if not closure[c] <= closure[f]:
+                        closure[f] |= closure[c]
+                        changed = True
+        for fname, fn in mod.functions.items():
+            stored = closure[fname]
+            frees = [ins for ins in fn.instrs() if ins.op == 'call' and callee_name(ins) == 'free' and ins.args]
             for ins in frees:
                 for (obj, off) in self.origin_of(fname, ins.args[0]):
                     for g in sorted(holders.get(obj, ())):
@@ -652,8 +679,8 @@ class Analysis(object):
                         if not used:
                             continue
                         out.append({'kind': 'stale-global-pointer', 'fn': fname, 'loc': self.loc(ins), 'labels': [],
-                                    'text': 'frees an object (%s) that the global %s may still point to, and does not update %s: the '
-                                            'next datagram follows a pointer into freed memory' % (obj, g, g)})
+                                    'text': 'frees an object (%s) that the global %s may still point to, and neither it nor a function '
+                                            'it calls updates %s: the next datagram follows a pointer into freed memory' % (obj, g, g)})
 
     # ---- K8: offsets that accumulate from one loop iteration (datagram) to the next ----
     def gep_affine(self, bty, idx):
